@@ -29,11 +29,19 @@ impl<VM: VMBinding> BucketQueue<VM> {
     }
 
     fn push(&self, w: Box<dyn GCWork<VM>>) {
+        #[cfg(feature = "verif")]
+        crate::util::verif::rt::sched_point(crate::util::verif::rt::Kind::BucketAdd, crate::util::verif::rt::addr_of(&self.queue));
+        #[cfg(feature = "verif")]
+        crate::util::verif::rt::event_str("packet_add", w.get_type_name(), 0, 0);
         self.queue.push(w);
     }
 
     fn push_all(&self, ws: Vec<Box<dyn GCWork<VM>>>) {
         for w in ws {
+            #[cfg(feature = "verif")]
+            crate::util::verif::rt::sched_point(crate::util::verif::rt::Kind::BucketAdd, crate::util::verif::rt::addr_of(&self.queue));
+            #[cfg(feature = "verif")]
+            crate::util::verif::rt::event_str("packet_add", w.get_type_name(), 0, 0);
             self.queue.push(w);
         }
     }
@@ -121,6 +129,8 @@ impl<VM: VMBinding> WorkBucket<VM> {
     }
 
     pub fn set_enabled(&self, enabled: bool) {
+        #[cfg(feature = "verif")]
+        crate::util::verif::rt::event("bucket_enabled", self.stage as usize, enabled as usize);
         self.enabled.store(enabled, Ordering::SeqCst)
     }
 
@@ -156,6 +166,10 @@ impl<VM: VMBinding> WorkBucket<VM> {
 
     /// Open the bucket
     pub fn open(&self) {
+        #[cfg(feature = "verif")]
+        crate::util::verif::rt::sched_point(crate::util::verif::rt::Kind::BucketOpen, self.stage as usize);
+        #[cfg(feature = "verif")]
+        crate::util::verif::rt::event("bucket_open", self.stage as usize, 0);
         self.open.store(true, Ordering::SeqCst);
     }
 
@@ -180,24 +194,34 @@ impl<VM: VMBinding> WorkBucket<VM> {
             "Bucket {:?} not drained before close",
             self.stage
         );
+        #[cfg(feature = "verif")]
+        crate::util::verif::rt::sched_point(crate::util::verif::rt::Kind::BucketClose, self.stage as usize);
+        #[cfg(feature = "verif")]
+        crate::util::verif::rt::event("bucket_close", self.stage as usize, 0);
         self.open.store(false, Ordering::Relaxed);
     }
 
     /// Add a work packet to this bucket
     /// Panic if this bucket cannot receive prioritized packets.
     pub fn add_prioritized(&self, work: Box<dyn GCWork<VM>>) {
+        #[cfg(feature = "verif")]
+        crate::util::verif::rt::event("bucket_add_prio", self.stage as usize, 1);
         self.prioritized_queue.as_ref().unwrap().push(work);
         self.notify_one_worker();
     }
 
     /// Add a work packet to this bucket
     pub fn add<W: GCWork<VM>>(&self, work: W) {
+        #[cfg(feature = "verif")]
+        crate::util::verif::rt::event("bucket_add", self.stage as usize, 1);
         self.queue.push(Box::new(work));
         self.notify_one_worker();
     }
 
     /// Add a work packet to this bucket
     pub fn add_boxed(&self, work: Box<dyn GCWork<VM>>) {
+        #[cfg(feature = "verif")]
+        crate::util::verif::rt::event("bucket_add", self.stage as usize, 1);
         self.queue.push(work);
         self.notify_one_worker();
     }
@@ -207,17 +231,23 @@ impl<VM: VMBinding> WorkBucket<VM> {
     /// used for notifying workers.  This usually happens if the current thread is the last worker
     /// parked.
     pub(crate) fn add_no_notify<W: GCWork<VM>>(&self, work: W) {
+        #[cfg(feature = "verif")]
+        crate::util::verif::rt::event("bucket_add", self.stage as usize, 1);
         self.queue.push(Box::new(work));
     }
 
     /// Like [`WorkBucket::add_no_notify`], but the work is boxed.
     pub(crate) fn add_boxed_no_notify(&self, work: Box<dyn GCWork<VM>>) {
+        #[cfg(feature = "verif")]
+        crate::util::verif::rt::event("bucket_add", self.stage as usize, 1);
         self.queue.push(work);
     }
 
     /// Add multiple packets with a higher priority.
     /// Panic if this bucket cannot receive prioritized packets.
     pub fn bulk_add_prioritized(&self, work_vec: Vec<Box<dyn GCWork<VM>>>) {
+        #[cfg(feature = "verif")]
+        crate::util::verif::rt::event("bucket_add_prio", self.stage as usize, work_vec.len());
         self.prioritized_queue.as_ref().unwrap().push_all(work_vec);
         self.notify_all_workers();
     }
@@ -227,6 +257,8 @@ impl<VM: VMBinding> WorkBucket<VM> {
         if work_vec.is_empty() {
             return;
         }
+        #[cfg(feature = "verif")]
+        crate::util::verif::rt::event("bucket_add", self.stage as usize, work_vec.len());
         self.queue.push_all(work_vec);
         self.notify_all_workers();
     }
@@ -236,6 +268,8 @@ impl<VM: VMBinding> WorkBucket<VM> {
         if !self.is_enabled() || !self.is_open() || self.is_empty() {
             return Steal::Empty;
         }
+        #[cfg(feature = "verif")]
+        crate::util::verif::rt::sched_point(crate::util::verif::rt::Kind::BucketPoll, self.stage as usize);
         if let Some(prioritized_queue) = self.prioritized_queue.as_ref() {
             prioritized_queue
                 .steal_batch_and_pop(worker)
@@ -253,6 +287,10 @@ impl<VM: VMBinding> WorkBucket<VM> {
     }
 
     pub fn set_sentinel(&self, new_sentinel: Box<dyn GCWork<VM>>) {
+        #[cfg(feature = "verif")]
+        crate::util::verif::rt::sched_point(crate::util::verif::rt::Kind::Sentinel, self.stage as usize);
+        #[cfg(feature = "verif")]
+        crate::util::verif::rt::event("sentinel_set", self.stage as usize, 0);
         let mut sentinel = self.sentinel.lock().unwrap();
         *sentinel = Some(new_sentinel);
     }
@@ -286,6 +324,8 @@ impl<VM: VMBinding> WorkBucket<VM> {
             // We don't need to notify other workers because this function is called by the last
             // parked worker.  After this function returns, the caller will notify workers because
             // more work packets become available.
+            #[cfg(feature = "verif")]
+            crate::util::verif::rt::event("sentinel_scheduled", self.stage as usize, 0);
             self.add_boxed_no_notify(work);
             true
         } else {
@@ -299,6 +339,35 @@ impl<VM: VMBinding> WorkBucket<VM> {
 
     pub(super) fn get_stage(&self) -> WorkBucketStage {
         self.stage
+    }
+}
+
+/// Verification hook (feature `verif`): a work packet that does nothing.
+#[cfg(feature = "verif")]
+struct VerifNop;
+
+#[cfg(feature = "verif")]
+impl<VM: VMBinding> GCWork<VM> for VerifNop {
+    fn do_work(&mut self, _worker: &mut GCWorker<VM>, _mmtk: &'static crate::MMTK<VM>) {}
+}
+
+/// Verification hook (feature `verif`): push and immediately steal `n` no-op packets on the
+/// bucket's queue, one at a time.  Used by the model-checking harness at quiescent points to bring
+/// the queue's internal block offset (on which the batch size of
+/// `Injector::steal_batch_and_pop` depends) back to the same value before every execution.
+#[cfg(feature = "verif")]
+impl<VM: VMBinding> WorkBucket<VM> {
+    pub(crate) fn verif_cycle_queue(&self, n: usize) {
+        for _ in 0..n {
+            self.queue.queue.push(Box::new(VerifNop));
+            loop {
+                match self.queue.queue.steal() {
+                    Steal::Success(_) => break,
+                    Steal::Retry => continue,
+                    Steal::Empty => unreachable!(),
+                }
+            }
+        }
     }
 }
 
